@@ -1,0 +1,56 @@
+//go:build verif
+
+package mysql
+
+import (
+	"reflect"
+	"runtime"
+	"strings"
+
+	"github.com/cossacklabs/acra/decryptor/base"
+)
+
+// Verification hook (C05, MySQL session state): add-only, compiled only with -tags verif.
+
+// VerifX05myState is the session bookkeeping of a MySQL proxy handler as the verification harness reads it.
+type VerifX05myState struct {
+	ResponseHandler string            // method name of the installed response handler ("default" for defaultResponseHandler)
+	CurrentCommand  byte              // command byte of the client packet read last
+	Registry        map[string]string // statement id (decimal) or name -> query text as registered
+	ParamsNum       map[string]int    // statement id -> number of parameters as registered
+	PendingParse    string            // query text of the COM_STMT_PREPARE accepted last ("" = none)
+	HasPendingParse bool
+	StmtID          uint32
+}
+
+// VerifX05myConstants: wire constants of the censor answer.
+func VerifX05myConstants() (code uint16, state string, message string) {
+	return ErQueryInterruptedCode, ErQueryInterruptedState, QueryExecutionWasInterrupted
+}
+
+// VerifX05mySessionState reads the handler's state. The caller makes sure that neither proxy goroutine is
+// working on a packet (the MySQL protocol is half-duplex: after a complete answer both wait).
+func VerifX05mySessionState(p base.Proxy) VerifX05myState {
+	h := p.(*Handler)
+	st := VerifX05myState{Registry: map[string]string{}, ParamsNum: map[string]int{}}
+	name := runtime.FuncForPC(reflect.ValueOf(h.responseHandler).Pointer()).Name()
+	if i := strings.LastIndex(name, "."); i >= 0 {
+		name = name[i+1:]
+	}
+	name = strings.TrimSuffix(name, "-fm")
+	if name == "defaultResponseHandler" {
+		name = "default"
+	}
+	st.ResponseHandler = name
+	st.CurrentCommand = h.currentCommand
+	for k, v := range h.registry.statements {
+		st.Registry[k] = v.stmt.QueryText()
+		st.ParamsNum[k] = v.stmt.ParamsNum()
+	}
+	if pp := h.protocolState.pendingParse; pp != nil {
+		st.HasPendingParse = true
+		st.PendingParse = pp.Query()
+	}
+	st.StmtID = h.protocolState.stmtID
+	return st
+}
